@@ -111,6 +111,22 @@ Theorem C02_ts_guard_from_positive_gap :
 Proof. exact ts_guard_positive_gap. Qed.
 Print Assumptions C02_ts_guard_from_positive_gap.
 
+(* the sequential builder over one stream batch (stream order, per-batch size cap TargetTxsSize) is an instance *)
+Theorem C02_stream_builder_verifies :
+  forall (r : rules) (mk : meta_keys) (p : parent_state) (hdr_h : N) (hdr_ts now : Z) (target_size : N) (stream : list cand)
+         (b : block) (o : out_ok) (vs : list verdict),
+    build_block_stream r p hdr_h hdr_ts now target_size stream = BBuilt b o vs ->
+    p_height p = Some hdr_h ->
+    (Z.of_N (p_ts p) <= hdr_ts)%Z ->
+    Forall (fun c => t_auth_ok (c_tx c) = true) stream ->
+    ts_guard p hdr_ts now ->
+    execute_block r mk p b = inl o.
+Proof.
+  intros r mk p hdr_h hdr_ts now target_size stream b o vs Hb Hh Hts Ha Hg. unfold build_block_stream in Hb.
+  eapply built_block_verifies; try eassumption. apply size_cut_Forall, Ha.
+Qed.
+Print Assumptions C02_stream_builder_verifies.
+
 (* ------------------------------------------------------------------ non-vacuity *)
 Definition ex_rich : key := [115; 0; 1].
 Definition ex_poor : key := [116; 0; 1].
